@@ -459,12 +459,15 @@ def store_subscript(it, obj, k, v, aug=False):
         n = obj.n
         if isinstance(v, (list, tuple)) and len(v) == n and not isinstance(v, str):
             v = Vec(v)
+        if isinstance(v, Vec) and v.fresh and obj.index != "range":
+            raise Raised("IndexMisalignment", f"a Series built by pd.Series(<array>) (fresh 0..n-1 index) is stored into column `{col}` of a table whose "
+                         "index is not known to be 0..n-1: pandas aligns by label, so values land on the wrong rows / become NaN")
         if mask is None:
-            obj.cols[col] = Vec(bcast(v, n))
+            obj.cols[col] = Vec(bcast(v, n), aligned=True)
         elif isinstance(mask, Vec):
             old = obj.cols[col].v if col in obj.cols else [None] * n
             newv = bcast(v, n)
-            obj.cols[col] = Vec(nv if m is True else ov for m, ov, nv in zip(mask.v, old, newv))
+            obj.cols[col] = Vec((nv if m is True else ov for m, ov, nv in zip(mask.v, old, newv)), aligned=True)
         else:
             raise Undecided(f"table store with row key {mask!r}")
         return
@@ -501,6 +504,8 @@ def store_subscript(it, obj, k, v, aug=False):
 # ---------------------------------------------------------------------- attributes of values
 def value_attr(it, obj, attr):
     if isinstance(obj, Vec):
+        if attr in ("values", "array") and (obj.fresh or obj.aligned):
+            return obj.view()
         if attr in ("values", "str", "dt", "array", "T"):
             return obj
         if attr in ("iat", "iloc", "loc", "at"):
@@ -756,7 +761,7 @@ def vec_method(it, obj, name, args, kw):
                 r = f_min(r, hi_)
             return r
         los, his = bcast(lo, len(obj.v)), bcast(hi, len(obj.v))
-        return Vec(ai.CTX.per_class(i, clip, x, l, h) for i, (x, l, h) in enumerate(zip(obj.v, los, his)))
+        return Vec((ai.CTX.per_class(i, clip, x, l, h) for i, (x, l, h) in enumerate(zip(obj.v, los, his))), fresh=obj.fresh, aligned=obj.aligned)
     if name == "replace":
         if len(args) == 2:
             return lift1(lambda x: args[1] if (not is_nan(x) and not isinstance(x, Opaque) and _eq(x, args[0])) else x, obj)
@@ -1002,10 +1007,11 @@ def ext_call(it, dotted, args, kw):
         return args[1] if ai.truth(c) else args[2]
     if name in ("np.asarray", "np.array", "np.asfarray", "pd.Series", "np.atleast_1d"):
         a0 = args[0] if args else kw.get("data")
+        fresh = name == "pd.Series" and "index" not in kw
         if isinstance(a0, Vec):
-            return Vec(a0.v)
+            return Vec(a0.v, fresh=fresh and not a0.aligned, aligned=a0.aligned and name == "pd.Series")
         if isinstance(a0, (list, tuple)):
-            return Vec(list(a0))
+            return Vec(list(a0), fresh=fresh)
         if isinstance(a0, Opaque):
             return a0
         return Opaque(name)
